@@ -82,6 +82,7 @@ CONSTANTS
   ImpChoice,        \* "steps": companion impulse "none" | "coincident" (with the burn's start or end) | "any" tick
   ImpDvs,           \* delta-v values of the companion impulse (0 = an event that changes nothing)
   FirstRootOnly,    \* deviation: of several roots at one stop only the first in list order is applied
+  CallerMayNeighbour,  \* "calls": the caller may repeat the last call's start time with a NEIGHBOURING state
   CallerMayDrop,    \* "calls": the caller may stop passing the event queue from some call on
   StaleThrust,      \* deviation (seeded/C03/change4): finite_thrust is only reset when events are passed
   Layouts,          \* memory layouts of the state argument the caller may use
@@ -119,7 +120,7 @@ VARIABLES
 vars == <<pc, law, burn, dt, nsteps, hor, X0, now, X, queue, thrust, call, it, fresh, rem, outs, hist, on, dropAt, imp, layout>>
 
 NoBurn  == [ts |-> 0, te |-> 0, kind |-> "none"]
-NoCall  == [kind |-> "none", times |-> <<>>, X0 |-> <<>>, q |-> 0]
+NoCall  == [kind |-> "none", times |-> <<>>, X0 |-> <<>>, q |-> 0, nb |-> <<>>]
 HasBurn == burn.kind # "none"
 NeverDrop == Horizon + 2
 NoImp   == [at |-> 0, dv |-> 0, first |-> FALSE, st |-> "none", qfirst |-> FALSE, pend |-> {}]
@@ -314,7 +315,9 @@ Grids(lo, m) == IF m = 0 THEN {<<>>}
 BulkGrids == UNION {Grids(now, m) : m \in 1..(MaxInterior + 1)}
 
 Begin(kind, times) ==
-  /\ call' = [kind |-> kind, times |-> times, X0 |-> X, q |-> queue]
+  \* (nb: when this is a neighbour call, the start state of the call it is a neighbour of)
+  /\ call' = [kind |-> kind, times |-> times, X0 |-> X, q |-> queue,
+              nb |-> IF call.kind = "nb" THEN call.X0 ELSE <<>>]
   \* _prepEvents: finite_thrust := None, then re-armed from the events of THIS call
   \* (StaleThrust: the reset only happens when events are passed)
   /\ thrust' = IF StaleThrust /\ queue = 0 THEN thrust ELSE Rearm(now, queue)
@@ -331,6 +334,31 @@ PrepEvents ==
   /\ pc = "pruned"
   /\ IF Mode = "steps" THEN Begin("single", <<now, now + dt>>)
      ELSE \E t1 \in (now + 1)..hor : Begin("single", <<now, t1>>)
+\* A second kind of call on the SAME dynamics object: same start time as the call just made, final time at least as
+\* late, start state a NEIGHBOUR of that call's start state (a finite-difference partner, another hypothesis, the next
+\* member of a tight batch propagated one by one).  A call's result depends on (t0, t1, x0, events) only - never on what
+\* the object propagated before - so from here on the behaviour simply IS the neighbouring trajectory: the agent's time
+\* is set back to t0, its state to the neighbour, and the initial batch X0 of the closed form is shifted accordingly
+\* (the law is linear in the state).
+NbOffsets == {<<1, 0>>, <<0, 1>>}          \* one lattice unit of 2*position or of velocity
+NeighbourCall ==
+  /\ pc = "idle" /\ Mode = "calls" /\ CallerMayNeighbour /\ dropAt = NeverDrop /\ ~HasImp
+  /\ Len(hist) >= 1 /\ Len(hist) < MaxCalls
+  /\ (HasBurn => burn.te > hor)              \* the event queue at t0 is the queue of now (nothing was pruned meanwhile)
+  /\ LET last == hist[Len(hist)]
+         t0   == last.times[1]
+     IN /\ \E o \in NbOffsets :
+             /\ X'  = [k \in DOMAIN last.x0 |-> <<last.x0[k][1] + o[1], last.x0[k][2] + o[2]>>]
+             /\ X0' = [k \in DOMAIN X0 |-> <<X0[k][1] + o[1] - 2 * o[2] * t0, X0[k][2] + o[2]>>]
+        /\ now' = t0
+        /\ queue' = PruneQ(queue, t0)
+        /\ call' = [call EXCEPT !.kind = "nb", !.times = last.times, !.X0 = last.x0]
+  /\ pc' = "nb"
+  /\ UNCHANGED <<law, burn, dt, nsteps, hor, thrust, it, fresh, rem, outs, hist, on, dropAt, imp, layout>>
+PrepEventsNb ==
+  /\ pc = "nb"
+  /\ \E t1 \in (now + 1)..hor : t1 >= call.times[Len(call.times)] /\ Begin("single", <<now, t1>>)
+
 \* PropagateBulk(times): times[1] is the initial time, the rest goes to t_eval
 PrepEventsBulk ==
   /\ pc = "pruned" /\ Mode = "calls"
@@ -411,7 +439,10 @@ Result == IF call.kind = "single" THEN <<X>> ELSE Tail(outs)
 Finish ==
   /\ pc = "finish"
   /\ now' = Tf
-  /\ hist' = Append(hist, [kind |-> call.kind, times |-> call.times, outs |-> Result, q |-> call.q, layout |-> layout])
+  \* (x0: the start state; base: for a neighbour call, what the same call gives for the state it is a neighbour of)
+  /\ hist' = Append(hist, [kind |-> call.kind, times |-> call.times, outs |-> Result, q |-> call.q, layout |-> layout,
+                           x0 |-> call.X0,
+                           base |-> [k \in DOMAIN call.nb |-> Run(call.times[1], Tf, call.nb[k], call.q)]])
   /\ pc' = IF Tf = hor THEN "done" ELSE "idle"
   /\ call' = [call EXCEPT !.kind = "none"]
   /\ UNCHANGED <<law, burn, dt, nsteps, hor, X0, X, queue, thrust, it, fresh, rem, outs, on>>
@@ -420,6 +451,7 @@ Finish ==
   /\ UNCHANGED imp
 
 Next == PoseLaw \/ PoseGrid \/ PoseBurn \/ PoseImp \/ ApplyImpulse \/ AppendEvent \/ Deliver \/ DropEvents \/ Prune \/ PrepEvents
+        \/ NeighbourCall \/ PrepEventsNb
         \/ PrepEventsBulk \/ Integrate \/ StartThrust \/ EndThrust \/ Finish
 Spec == Init /\ [][Next]_vars
 
@@ -436,7 +468,7 @@ ThrustExactlyInterval ==
 ImpDv(t) == IF HasImp /\ t > imp.at THEN imp.dv ELSE 0
 DeliveredDv ==
   AtBoundary => \A k \in Cols :
-     /\ X[k][2] - (X0[k][2] + G * now) = A * Cardinality(on) + ImpDv(now)
+     /\ X[k][2] - (X0[k][2] + G * now) = A * Cardinality({tau \in on : tau < now}) + ImpDv(now)
      /\ (HasBurn /\ now >= EffEnd) => X[k][2] - (X0[k][2] + G * now) = A * Max(0, EffEnd - burn.ts) + ImpDv(now)
 \* C03/C15: the state at a call boundary does not depend on how [0, now] was cut into calls
 ExactAtBoundaries ==
